@@ -65,8 +65,15 @@ def _pure(e):
 def equiv_kinds(n):
     """semantics-preserving rewrites (for the false-alarm self-test): commuted operands of + * == != and of and/or over side-effect-free
     operands, a <= b as not (a > b) on numbers is NOT used (NaN), x[i:] untouched"""
-    if isinstance(n, ast.BinOp) and type(n.op) in (ast.Add, ast.Mult) and _pure(n.left) and _pure(n.right) and not any(isinstance(x, ast.Constant) and isinstance(x.value, str) for x in (n.left, n.right)):
-        yield "commute"
+    def _num(x):
+        return (isinstance(x, ast.Constant) and isinstance(x.value, (int, float)) and not isinstance(x.value, bool)) or (isinstance(x, ast.BinOp) and isinstance(x.op, (ast.Mult, ast.Div, ast.Sub)))
+    if isinstance(n, ast.BinOp) and _pure(n.left) and _pure(n.right) and (isinstance(n.op, ast.Mult) and (_num(n.left) or _num(n.right)) or
+                                                                         isinstance(n.op, ast.Add) and (_num(n.left) or _num(n.right))):
+        yield "commute"  # numeric + and * only (list / string concatenation is not commutative)
+    if isinstance(n, ast.If) and n.orelse and not (len(n.orelse) == 1 and isinstance(n.orelse[0], ast.If)) and _pure(n.test):
+        yield "swap_branches"
+    if isinstance(n, ast.Return) and n.value is not None and not isinstance(n.value, (ast.Name, ast.Constant)):
+        yield "temp_return"
     if isinstance(n, ast.Compare) and len(n.ops) == 1 and type(n.ops[0]) in (ast.Eq, ast.NotEq) and _pure(n.left) and _pure(n.comparators[0]):
         yield "commute_cmp"
     if isinstance(n, ast.Compare) and len(n.ops) == 1 and type(n.ops[0]) in (ast.Lt, ast.LtE, ast.Gt, ast.GtE) and _pure(n.left) and _pure(n.comparators[0]):
@@ -134,6 +141,12 @@ def apply(node, kind):
         node.ops = [m[type(node.ops[0])]()]
     elif kind == "commute_bool":
         node.values = [node.values[1], node.values[0]]
+    elif kind == "swap_branches":
+        node.test = ast.UnaryOp(op=ast.Not(), operand=node.test)
+        node.body, node.orelse = node.orelse, node.body
+    elif kind == "temp_return":
+        return [ast.Assign(targets=[ast.Name(id="_result_value", ctx=ast.Store())], value=node.value, lineno=node.lineno),
+                ast.Return(value=ast.Name(id="_result_value", ctx=ast.Load()))]
     return node
 
 
